@@ -36,8 +36,8 @@ add("C06", "exhaustive enumeration of import lists x forward-declaration lists x
 add("C07", "exhaustive enumeration of ordered argument pairs over (category x direction) cells x oneway combinations against the statement's table",
     "All ordered pairs of 84 (category, direction) cells (21 category representatives reached through real multi-file resolution, beside mirror files that give every name the other kinds; every third argument annotated) x interface oneway x 4 method-oneway patterns x with/without a constant before a member (then all methods share one name), every cell alone, thorough: all 512 000 ordered triples; Errors on direction keywords / at argument type starts and the propagated oneway flags are compared with the reference.",
     SEMA_NOTE, "DESIGN.md section 4, C07")
-add("C08", "exhaustive enumeration of container shapes to depth 3/4 over 18 leaf categories in 4 positions against the statement's element tables",
-    "Every chain over {T[], List<T>, Map<String,T>, Map<T,String>} of depth <= 4 (thorough 5) over 18 leaf categories plus all Map<k,v> over leaf pairs and single chains of depth 6-24, in return / argument / field / constant position, under three headers (plain / importing the built-ins it uses / importing project items and declaring a parcelable named like built-ins), partly in a commented layout, packed 40 per file and unpacked at the next smaller depth; every validation diagnostic inside a type's extent is compared with the reference applied to every container node.",
+add("C08", "exhaustive enumeration of container shapes to depth 3/4 over 21 leaf categories in 4 positions against the statement's element tables",
+    "Every chain over {T[], List<T>, Map<String,T>, Map<T,String>} of depth <= 4 (thorough 5) over 21 leaf categories plus all Map<k,v> over leaf pairs and single chains of depth 6-24, in return / argument / field / constant position, under three headers (plain / importing the built-ins it uses / importing project items and declaring a parcelable named like built-ins), partly in a commented layout, packed 40 per file and unpacked at the next smaller depth; every validation diagnostic inside a type's extent is compared with the reference applied to every container node.",
     SEMA_NOTE, "DESIGN.md section 4, C08")
 add("C09", "exhaustive enumeration of member sequences (append-one-member transition) against a reference single pass",
     "Every member sequence of length <= 4 (thorough 5) over 12 methods (3 names x {no code, 8, 010, 10}), a constant and a constant named like a method (every third sequence in a commented layout) plus interfaces of 9-40 methods with shuffled codes and far-apart repeats / late mixing; all diagnostics inside the interface body incl. related ranges are compared with the reference (first-occurrence bookkeeping, exactly one 'mixed' Error).",
@@ -67,15 +67,15 @@ add("C01", "bounded-exhaustive input-shape exploration (character trees, token-s
     "trusted: wall-clock limits separate slow from hanging (120 s; 900 s for the size families); bounds: alphabets, lengths, depth 64, 64 KiB",
     "DESIGN.md section 4, C01")
 add("C11", "exhaustive exploration of environment answers (hash-iteration orders) with owned seeds and a closure certificate, x insertion orders x histories x repeated calls",
-    "23 colliding projects x insertion orders (quick 6, thorough all 24) x plain / replace histories (interim contents, a validation, the EOL twin of every file) x base keys of fresh threads x repeated validate() calls, plus the same projects in 4 (thorough 16) child processes; std's hash seeds are owned through an LD_PRELOAD getrandom shim, and seeds are enumerated until every hash container of <= 4 elements has been observed (hook H3) in all its iteration orders at every site (evidence lists observed / possible per site). All outputs of a project must be equal (trees by ==, diagnostic vectors element-wise) and every file's diagnostics ascending in (line, column).",
+    "25 colliding projects x insertion orders (quick 6, thorough all 24) x plain / replace histories (interim contents, a validation, the EOL twin of every file) x base keys of fresh threads x repeated validate() calls, plus the same projects in 4 (thorough 16) child processes; std's hash seeds are owned through an LD_PRELOAD getrandom shim, and seeds are enumerated until every hash container of <= 4 elements has been observed (hook H3) in all its iteration orders at every site (evidence lists observed / possible per site). All outputs of a project must be equal (trees by ==, diagnostic vectors element-wise) and every file's diagnostics ascending in (line, column).",
     "trusted: getrandom shim (self-tested each run), hook H3 observers; thread schedules are not explored (no synchronisation operations in the library)",
     "DESIGN.md section 4, C11")
 add("C12", "explicit-state exploration of operation histories on the live Parser (cloned per branch) against a fresh parser built from the abstract id -> content map",
-    "Full history trees from the empty parser (alphabet A: 30 operations incl. the CRLF twin of a content, a BOM-prefixed file, a 100 KB file and a non-canonical path, to depth 3 / 4; alphabet B: 11 operations to depth 4 / 6) and all suffixes of length 2 from 240 (thorough all 864) canonical abstract states, thorough also all suffixes of length 3 from the states with <= 2 files; after every transition validate() of the live object must equal validate() of a fresh parser holding the abstract map, and add_file must fail exactly when the model says so.",
+    "Full history trees from the empty parser (alphabet A: 32 operations incl. the CRLF twin of a content, the same item moved to a sub-package, a BOM-prefixed file, a 100 KB file and a non-canonical path, to depth 3 / 4; alphabet B: 11 operations to depth 4 / 6) and all suffixes of length 2 from 240 (thorough all 864) canonical abstract states, thorough also all suffixes of length 3 from the states with <= 2 files; after every transition validate() of the live object must equal validate() of a fresh parser holding the abstract map, and add_file must fail exactly when the model says so.",
     "trusted: hook H4 (derived Clone) for branching - every violation is re-confirmed by a from-scratch replay without clones; abstract states with one key in two kinds are explored like all others",
     "DESIGN.md section 4, C12")
 add("C13", "explicit-state exploration of (observed file, project) states under single-file perturbations of the live parser, differential oracle",
-    "6 observed files x every set of <= 2 (thorough 4) of 22 other files x every single-file perturbation (add / drop / swap / replace in place) applied to the already validated live parser; all observations with equal (observed text, per-import registered?/kind) must be equal; kind changes must be observable (negative control).",
+    "6 observed files x every set of <= 2 (thorough 4) of 26 other files x every single-file perturbation (add / drop / swap / replace in place) applied to the already validated live parser; all observations with equal (observed text, per-import registered?/kind) must be equal; kind changes must be observable (negative control).",
     "trusted: hook H4 (Clone); violations re-confirmed by replaying both plain histories; for a key registered with two kinds the fact is the set of kinds",
     "DESIGN.md section 4, C13")
 add("C14", "bounded-exhaustive token-string exploration of malformed members in member frames against sibling-preservation and locality oracles",
